@@ -223,7 +223,7 @@ fn is_known(known: &[KnownEntry], id: &str, viol: &Violation) -> Option<KnownEnt
 // ---------------------------------------------------------------------------------------
 // Minimisation
 
-pub fn minimise(check: &dyn Check, case: &Value, class: &str, max_steps: usize) -> (Value, usize) {
+pub fn minimise(check: &dyn Check, case: &Value, class: &str, shape: &Option<String>, max_steps: usize) -> (Value, usize) {
     let mut cur = case.clone();
     let mut steps = 0usize;
     let mut improved = true;
@@ -235,7 +235,9 @@ pub fn minimise(check: &dyn Check, case: &Value, class: &str, max_steps: usize) 
                 break;
             }
             let v = check.execute(&cand);
-            if v.harness_error.is_none() && v.violation.as_ref().is_some_and(|x| x.class == class) {
+            // same class *and* same known-finding shape: minimisation must not wander from an
+            // unknown violation into a listed finding of the same class (or back)
+            if v.harness_error.is_none() && v.violation.as_ref().is_some_and(|x| x.class == class && x.known_shape == *shape) {
                 cur = cand;
                 improved = true;
                 break;
@@ -508,7 +510,7 @@ pub fn orchestrate(check: &dyn Check, opts: &CheckOpts) -> i32 {
             continue;
         }
         // minimise and write the replay file
-        let (min_case, steps) = minimise(check, case, &viol.class, 400);
+        let (min_case, steps) = minimise(check, case, &viol.class, &viol.known_shape, 400);
         let min_case = minimise_schedule(check, &min_case, &viol.class).unwrap_or(min_case);
         let mv = check.execute(&min_case);
         let (final_case, final_viol) = match mv.violation {
